@@ -10,6 +10,7 @@ import (
 
 	"github.com/aml-org/amf-custom-validator/internal/parser"
 	"github.com/aml-org/amf-custom-validator/internal/parser/path"
+	"github.com/aml-org/amf-custom-validator/internal/parser/profile"
 	"github.com/aml-org/amf-custom-validator/internal/validator"
 	c "github.com/aml-org/amf-custom-validator/pkg/config"
 	e "github.com/aml-org/amf-custom-validator/pkg/events"
@@ -24,6 +25,9 @@ func GenerateRego(profileText string, eventChan *chan e.Event) (name string, cod
 	}
 	return unit.Name, unit.Code, nil
 }
+
+// GenReset restarts the generated-identifier counter, as a fresh process would start.
+func GenReset() { profile.GenReset() }
 
 // ParseProfile returns the logical rendering of the parsed profile.
 func ParseProfile(profileText string) (string, error) {
